@@ -439,7 +439,7 @@ class Pt:
 
     def n(self, r=None):
         nn = self.s.normals[self._side(r)]
-        return nn if nn.ndim == 1 else nn[self.q]  # per-point normals on non-affine cells
+        return nn if (nn is None or nn.ndim == 1) else nn[self.q]  # per-point normals on non-affine cells
 
     def x(self):
         return self.s.xq[self.q]
@@ -698,6 +698,55 @@ def c02_cases(tier):
     return cases
 
 
+def nonaffine_cases():
+    """Facet forms on NON-AFFINE geometry: bilinear (Q1) quadrilaterals with non-parallel edges and triangles with a
+    degree-2 coordinate element (curved edges).  Jacobians, facet scale factors and normals vary along the facet; the
+    integrands are rational, so the form fixes the quadrature degree and the oracle uses the same basix rule."""
+    from ufl import Coefficient, FacetNormal, FunctionSpace, TestFunction, TrialFunction, avg, dS, ds, grad, inner, jump
+    cases = []
+    qd = 4
+    for cell, geom, d in (("quadrilateral", "q1", 2), ("triangle", "p2", 2)):
+        def ext_bilinear(m, cell=cell, d=d):
+            e = lag(cell, d)
+            V = FunctionSpace(m, e.ufl)
+            u, v, f = TrialFunction(V), TestFunction(V), Coefficient(V)
+            n = FacetNormal(m)
+            return dict(form=f * u * v * ds(degree=qd) + inner(grad(u), n) * v * ds(degree=qd) + n[0] * f * v * u * ds(degree=qd),
+                        test=e, trial=e, coefs=[e],
+                        fn=lambda P: P.f(0) * np.outer(P.v(), P.u()) + np.outer(P.v(), P.gu() @ P.n())
+                        + P.n()[0] * P.f(0) * np.outer(P.v(), P.u()))
+        cases.append(FormCase(f"ext_bilinear_{geom}_{cell}", cell, "exterior_facet", ext_bilinear, geom=geom, qdeg=qd))
+
+        def int_bilinear(m, cell=cell, d=d):
+            e = lag(cell, d)
+            V = FunctionSpace(m, e.ufl)
+            u, v = TrialFunction(V), TestFunction(V)
+            n = FacetNormal(m)
+            return dict(
+                form=jump(u) * avg(v) * dS(degree=qd) + inner(avg(grad(u)), n("+")) * jump(v) * dS(degree=qd)
+                + 3 * u("-") * v("+") * dS(degree=qd),
+                test=e, trial=e,
+                fn=lambda P: np.outer(0.5 * (P.v("+") + P.v("-")), P.u("+") - P.u("-"))
+                + np.outer(P.v("+") - P.v("-"), 0.5 * (P.gu("+") + P.gu("-")) @ P.n("+"))
+                + 3 * np.outer(P.v("+"), P.u("-")))
+        cases.append(FormCase(f"int_bilinear_{geom}_{cell}", cell, "interior_facet", int_bilinear, geom=geom, qdeg=qd))
+
+        def int_linear(m, cell=cell, d=d):
+            e = lag(cell, d)
+            e1 = lag(cell, 1)
+            V, W = FunctionSpace(m, e.ufl), FunctionSpace(m, e1.ufl)
+            f, g, v = Coefficient(V), Coefficient(W), TestFunction(W)
+            n = FacetNormal(m)
+            form = (f("+") * g("-") * v("-") * dS(degree=qd) + inner(jump(grad(f)), n("-")) * v("+") * dS(degree=qd)
+                    + n("-")[1] * avg(g) * v("+") * dS(degree=qd))
+            fn = lambda P: (P.f(0, "+") * P.f(1, "-") * P.v("-")  # noqa: E731
+                            + ((P.gf(0, "+") - P.gf(0, "-")) @ P.n("-")) * P.v("+")
+                            + P.n("-")[1] * 0.5 * (P.f(1, "+") + P.f(1, "-")) * P.v("+"))
+            return dict(form=form, test=e1, coefs=[e, e1], fn=fn)
+        cases.append(FormCase(f"int_linear_{geom}_{cell}", cell, "interior_facet", int_linear, geom=geom, qdeg=qd))
+    return cases
+
+
 def generated_cases(seed, n):
     """Seeded random facet forms (thorough tier): sums of 2-3 terms `c * S * Arg` where S is a scalar factor of
     coefficients/normals with random restrictions and Arg an argument factor; each term is built in UFL and as a
@@ -788,6 +837,85 @@ def entity_configs(case, rng, tier):
     return pairs
 
 
+class HarnessGeometryError(Exception):
+    """The harness' own geometry construction failed (not a statement about FFCx)."""
+
+
+def _edge_nodes_p2(cell):
+    """node index (>= nverts) of the P2 coordinate element sitting on each edge of the reference cell"""
+    g = ref_geometry(cell)
+    pts = np.asarray(coord_element(cell, 2).points, dtype=float)
+    out = {}
+    for e, (a, b) in enumerate(ref_topology(cell)[1]):
+        k = np.where(np.all(np.abs(pts - 0.5 * (g[a] + g[b])) < 1e-12, axis=1))[0]
+        if len(k) != 1:
+            raise HarnessGeometryError(f"no unique P2 node on edge {e} of {cell}")
+        out[e] = int(k[0])
+    return out
+
+
+def promote(pc, geom, rng, keep_facet=None):
+    """Non-affine version of the affine cell `pc`: "q1" moves the vertices that are not on facet `keep_facet` (a bilinear
+    quadrilateral with straight edges), "p2" adds the edge-midpoint nodes of the degree-2 coordinate element and moves them
+    off the chords (curved edges; the node on `keep_facet` is set by the caller so that both cells share it)."""
+    if geom == "affine":
+        return pc
+    cell, td = pc.cell, pc.tdim
+    fixed = set(ref_topology(cell)[td - 1][keep_facet]) if keep_facet is not None else set()
+    if geom == "q1":
+        V = pc.V.copy()
+        for i in range(V.shape[0]):
+            if i not in fixed:
+                V[i] += dyadic(rng, (td,), -6, 6, 64.0)
+        if all(i in fixed for i in range(V.shape[0])):
+            raise HarnessGeometryError("q1 promotion: no free vertex")
+        out = PhysCell(cell, V)
+    elif geom == "p2":
+        nodes = np.asarray(coord_element(cell, 2).points, dtype=float)
+        V = pc.x(nodes)
+        nv = ref_geometry(cell).shape[0]
+        for i in range(nv, V.shape[0]):
+            V[i] += dyadic(rng, (td,), -4, 4, 64.0)
+        out = PhysCell(cell, V, gdeg=2)
+    else:
+        raise HarnessGeometryError(f"unknown geometry kind {geom}")
+    if out.affine:  # all perturbations happened to be zero: force one
+        return promote(pc, geom, rng, keep_facet)
+    return out
+
+
+def make_cells(case, ents, rng):
+    """Random geometry for one entity configuration: the cell(s) and, for interior facets, the pair of codes (a random
+    code on '+', the geometrically aligned one on '-')."""
+    cell = case.cell
+    width = 2 if case.itype == "interior_facet" else 1
+    cp = random_affine_cell(cell, rng)
+    if width == 1:
+        return [promote(cp, case.geom, rng)], []
+    ft = facet_type(cell, ents[0])
+    syms = facet_symmetries(ft)
+    tau = syms[int(rng.integers(0, len(syms)))]
+    try:
+        cm = neighbour_cell(cp, ents[0], cell, ents[1], tau, rng)
+    except AssertionError as ex:
+        raise HarnessGeometryError(f"neighbour_cell: {ex}") from ex
+    if case.geom != "affine":
+        cp = promote(cp, case.geom, rng, keep_facet=ents[0])
+        cm = promote(cm, case.geom, rng, keep_facet=ents[1])
+        if case.geom == "p2":  # the node on the shared (curved) edge is common to both cells
+            en = _edge_nodes_p2(cell)
+            Vm = cm.V.copy()
+            Vm[en[ents[1]]] = cp.V[en[ents[0]]]
+            cm = PhysCell(cell, Vm, gdeg=2)
+    Np = int(rng.integers(0, NUM_CODES[ft]))
+    psi = cp.facet_param(ents[0], perm_np(ft, Np, TEST_POINTS[ft]))
+    cands = aligning_codes(ft, lambda X: cm.facet_param(ents[1], X), psi)
+    if len(cands) != 1:
+        raise HarnessGeometryError(f"align:{ft}:no-unique-code: {len(cands)} permutation codes align the facet points "
+                                   f"(expected exactly 1; candidates {cands})")
+    return [cp, cm], [Np, cands[0]]
+
+
 def run_case(chk, case, form, mod, rng, tier, ncfg_hist):
     """Compare the compiled kernel(s) of `case` with the oracle on every entity configuration."""
     cell = case.cell
@@ -797,27 +925,16 @@ def run_case(chk, case, form, mod, rng, tier, ncfg_hist):
     integrals = integrals_of(form, case.itype)
     worst = 0.0
     for ents in entity_configs(case, rng, tier):
-        cp = random_affine_cell(cell, rng)
-        cells = [cp]
-        perm = []
-        if width == 2:
-            ft = facet_type(cell, ents[0])
-            syms = facet_symmetries(ft)
-            tau = syms[int(rng.integers(0, len(syms)))]
-            cm = neighbour_cell(cp, ents[0], cell, ents[1], tau, rng)
-            cells.append(cm)
-            Np = int(rng.integers(0, NUM_CODES[ft]))
-            T = TEST_POINTS[ft]
-            psi = cp.facet_param(ents[0], perm_np(ft, Np, T))
-            cands = aligning_codes(ft, lambda X: cm.facet_param(ents[1], X), psi)
-            if len(cands) != 1:
-                chk.violation(key=f"align:{ft}:no-unique-code", what="no unique aligning permutation code",
-                              payload={"case": case.name, "entities": ents, "candidates": cands})
-                continue
-            perm = [Np, cands[0]]
-        w = [[dyadic(rng, (el.dim,), -32, 32, 16.0) for _ in range(width)] for el in case.coefs]
-        setup = OracleSetup(case.itype, cells, ents, case.test, case.trial, case.coefs, w)
-        ref = np.asarray(setup.integrate(case.fn), dtype=float).reshape(-1)
+        try:
+            cells, perm = make_cells(case, ents, rng)
+            w = [[dyadic(rng, (el.dim,), -32, 32, 16.0) for _ in range(width)] for el in case.coefs]
+            setup = OracleSetup(case.itype, cells, ents, case.test, case.trial, case.coefs, w, qdeg=case.qdeg)
+            ref = np.asarray(setup.integrate(case.fn), dtype=float).reshape(-1)
+        except (HarnessGeometryError, AssertionError, RuntimeError, np.linalg.LinAlgError) as ex:
+            # a failure of the harness' own geometry / oracle is a broken tie, never a failing input of FFCx
+            chk.disagree("harness geometry/oracle could not be set up (no statement about the kernel)",
+                         {"case": case.name, "entities": list(ents), "error": f"{type(ex).__name__}: {str(ex)[:300]}"})
+            continue
         # kernel: pick the integral whose domain matches the facet type (prism has two)
         integral = integrals[0]
         if len(integrals) > 1:
@@ -830,7 +947,8 @@ def run_case(chk, case, form, mod, rng, tier, ncfg_hist):
         err = float(np.abs(A - ref).max()) / scale
         worst = max(worst, err)
         key = f"{case.name}:{'/'.join(map(str, ents))}"
-        chk.case(kind="oracle", key=key if np.abs(ref).max() > 1e-12 else None,
+        chk.case(kind="oracle" if case.geom == "affine" else "oracle_nonaffine",
+                 key=key if np.abs(ref).max() > 1e-12 else None,
                  sample={"case": case.name, "entities": list(ents), "perm": perm, "rel_err": err}
                  if (width == 2 and ents[0] != ents[1] and rng.integers(0, 8) == 0) else None)
         ncfg_hist[cell] = ncfg_hist.get(cell, 0) + 1
@@ -1093,15 +1211,71 @@ def corr_ir_offsets(chk, d, forms_by_name):
                     if mt is None or tr is None or not isinstance(mt.terminal, ufl.classes.FormArgument):
                         continue
                     el = mt.terminal.ufl_function_space().ufl_element()
-                    if tr.block_size != 1 or el.reference_value_size != 1 or tr.offset is None:
+                    if tr.offset is None or tr.block_size is None:
                         continue
                     r = 1 if mt.restriction == "-" else 0
-                    model = int(d.ask(f"(aindex1 {int(el.dim)} {r} 0)"))
-                    chk.case(kind="ir_dof_offset", key=f"{name}:{type(mt.terminal).__name__}:{mt.restriction}:{int(el.dim)}")
-                    if model != int(tr.offset):
-                        chk.disagree("'-' dof offset of a table reference", {"form": name, "restriction": mt.restriction,
-                                                                             "element_dim": int(el.dim),
-                                                                             "impl": int(tr.offset), "model": model})
+                    if tr.block_size == 1 and el.reference_value_size == 1:
+                        model = int(d.ask(f"(aindex1 {int(el.dim)} {r} 0)"))
+                        chk.case(kind="ir_dof_offset", key=f"{name}:{type(mt.terminal).__name__}:{mt.restriction}:{int(el.dim)}")
+                        if model != int(tr.offset):
+                            chk.disagree("'-' dof offset of a table reference", {"form": name, "restriction": mt.restriction,
+                                                                                 "element_dim": int(el.dim),
+                                                                                 "impl": int(tr.offset), "model": model})
+                        continue
+                    # blocked / vector-valued / mixed elements: column ic of the table is dof `offset + block_size*ic` of the
+                    # macro element; the dof it must be is found independently by matching the component element's basis
+                    # function against the tabulation of the FULL element (basix only)
+                    ncols = int(tr.values.shape[3])
+                    for ic in sorted({0, ncols - 1}):
+                        j = _full_element_dof(el, mt, ic)
+                        if j is None:
+                            chk.notes["ir_dof_offset_blocked_skipped"] = chk.notes.get("ir_dof_offset_blocked_skipped", 0) + 1
+                            continue
+                        model = int(d.ask(f"(aindex1 {int(el.dim)} {r} {j})"))
+                        impl = int(tr.offset) + int(tr.block_size) * ic
+                        chk.case(kind="ir_dof_offset_blocked",
+                                 key=f"{name}:{type(mt.terminal).__name__}:{mt.restriction}:{int(el.dim)}:{tr.block_size}:{int(tr.offset)}:{ic}")
+                        if model != impl:
+                            chk.disagree("dof of a table column (block_size > 1 / vector-valued element)",
+                                         {"form": name, "restriction": mt.restriction, "element_dim": int(el.dim),
+                                          "offset": int(tr.offset), "block_size": int(tr.block_size), "column": ic,
+                                          "impl": impl, "model": model, "full_element_dof": j})
+
+
+_DOF_PROBE_POINTS = {1: np.array([[0.13], [0.71]]), 2: np.array([[0.11, 0.23], [0.57, 0.19], [0.2, 0.66]]),
+                     3: np.array([[0.11, 0.23, 0.17], [0.47, 0.19, 0.08], [0.2, 0.36, 0.3]])}
+
+
+def _full_element_dof(el, mt, ic):
+    """Index j of the basis function of the full element `el` whose reference component `flat_component` (with the local
+    derivatives of `mt`) is column `ic` of the component element's tabulation — found by comparing basix tabulations on
+    generic points; None if the full element cannot be tabulated (basix raises for some mixed elements) or no unique match."""
+    from ffcx.element_interface import basix_index
+    from ffcx.ir.elementtables import get_modified_terminal_element
+    try:
+        res = get_modified_terminal_element(mt)
+        if not res:
+            return None
+        element, avg, derivs, fc = res
+        if avg or element != el:
+            return None
+        td = el.cell.topological_dimension
+        X = _DOF_PROBE_POINTS[td]
+        nd = sum(derivs)
+        comp_el, _off, _stride = el.get_component_element(fc)
+        col = np.asarray(comp_el.tabulate(nd, X))[basix_index(derivs)][:, ic]
+        full = np.asarray(el.tabulate(nd, X))[basix_index(derivs)]  # [npts, value_size, ndofs] or [npts, ndofs*vs]
+        if full.ndim == 2:
+            vs = int(el.reference_value_size)
+            full = full.reshape(full.shape[0], vs, -1) if full.shape[1] == vs * int(el.dim) else None
+        if full is None or float(np.abs(col).max()) < 1e-12:
+            return None
+        hits = [j for j in range(full.shape[2]) if np.allclose(full[:, fc, j], col, atol=1e-12)
+                and np.allclose(np.delete(full[:, :, j], fc, axis=1), 0.0, atol=1e-12) or
+                (np.allclose(full[:, fc, j], col, atol=1e-12) and full.shape[1] == 1)]
+        return hits[0] if len(hits) == 1 else None
+    except Exception:  # noqa: BLE001 - basix cannot tabulate this full element: nothing independent to compare with
+        return None
 
 
 def corr_layout(chk, d, rng):
